@@ -230,6 +230,28 @@ C03_SameFame ==
                 fb == nodes[b].h.R[r].ev[w].f
             IN  (fa # "U" /\ fb # "U") => fa = fb
 
+\* C03 as stated: what a node computed is a function of the set of events it
+\* holds - every other order in which the same events could have been
+\* inserted (parents first) leads to the same rounds, witnesses, Lamport
+\* timestamps, rounds-received and block bodies.  (Exponential in the number of
+\* concurrent events: for the small configuration MC_hg2o only.)
+RECURSIVE Linearizations(_)
+Linearizations(S) ==
+    IF S = {} THEN { << >> }
+    ELSE UNION { { << e >> \o s : s \in Linearizations(S \ {e}) } :
+                 e \in { x \in S : D[x].sp \notin S /\ D[x].op \notin S } }
+
+ValuesOf(h) == [ e \in DOMAIN h.E |-> << h.E[e].rnd, h.E[e].wit, h.E[e].lt, h.E[e].rr >> ]
+BodiesOf(h) == [ i \in 1..Len(h.out) |-> Body(h.out[i]) ]
+
+C03_OrderIndependent ==
+    \A n \in Nodes :
+        LET h == nodes[n].h IN
+        \A s \in Linearizations(DOMAIN h.E) :
+            LET g == InsertAllAndRun(D, InitHG(Genesis, n), s) IN
+            /\ ValuesOf(g) = ValuesOf(h)
+            /\ BodiesOf(g) = BodiesOf(h)
+
 \* C09 (design level): the anchor always has > n/3 signers of its round's set
 C09_AnchorTrusted ==
     \A n \in Nodes :
